@@ -240,7 +240,7 @@ fn gen_case(t: &mut Tape) -> Pair {
                         }
                     }
                     (_, 0) => gen::gen_port(t).to_string().into_bytes(),
-                    _ => t.pick(&["", "x", "+1", "\n", "999999"]).as_bytes().to_vec(),
+                    _ => t.pick(&["", "x", "+1", "\n", "999999", "\u{e9}", "\u{20ac}", "1.2.3.\u{e9}", "\u{1f600}", "\u{feff}1"]).as_bytes().to_vec(),
                 };
                 l.extend(f);
             }
